@@ -21,20 +21,32 @@ Definition out_eq (cmp : qi -> qi -> bool) (n : nat) (o : eout (R:=qi)) (w : lis
 
 (* rule under test *)
 Inductive crule :=
-| ROracle (sorted : bool) (m : nat) (w : list qi) (V : list (list qi))   (* dense / Krylov rule: the oracle's output as data; sorted = repaired rule *)
+(* [srt = Some idx]: repaired rule - the pairs are reordered by idx = the backend's argsort of the magnitudes (oracle data,
+   checked to be a permutation that sorts by magnitude) before slicing; [None]: the pinned rule *)
+| ROracle (srt : option (list nat)) (m : nat) (w : list qi) (V : list (list qi))   (* dense / Krylov rule: the oracle's output as data *)
 | RIdent
-| RDiag (bymag : bool) (d : list qi)
-| RTri (bymag : bool) (lower_rule : bool) (A : list (list qi)) (real_buffer : bool).   (* lower_rule: repaired rule for a lower triangular operator *)
+| RDiag (srt : option (list nat)) (d : list qi)
+| RTri (srt : option (list nat)) (lower_rule : bool) (A : list (list qi)) (real_buffer : bool).   (* lower_rule: repaired rule for a lower triangular operator *)
 Record ecase := mkecase { cn : nat; crl : crule; ck : Z; cwh : which; ctol2 : Qc;   (* squared tolerance; 0 = exact *)
                           cok : bool;                       (* the implementation returned a result *)
                           cw : list qi; cV : list (list qi) }.
+Fixpoint nodupb (l : list nat) : bool := match l with [] => true | x :: r => negb (existsb (Nat.eqb x) r) && nodupb r end.
+Fixpoint sortedb (w : nat -> qi) (l : list nat) : bool :=
+  match l with x :: ((y :: _) as r) => qi_mag_leb (w x) (w y) && sortedb w r | _ => true end.
+Definition valid_argsort (m : nat) (w : nat -> qi) (idx : list nat) : bool :=
+  Nat.eqb (length idx) m && forallb (fun x => (x <? m)%nat) idx && nodupb idx && sortedb w idx.
+Definition cast_of (rb : bool) : qi -> qi := if rb then (fun x => (fst x, 0%Qc)) else (fun x => x).
 Definition run_rule (c : ecase) : option (eout (R:=qi)) :=
   match crl c with
-  | ROracle sorted m w V => if sorted then eig_sorted qi_mag_leb m (vecl w) (matl V) (ck c) (cwh c) else eig_oracle m (vecl w) (matl V) (ck c) (cwh c)
+  | ROracle None m w V => eig_oracle m (vecl w) (matl V) (ck c) (cwh c)
+  | ROracle (Some idx) m w V => if valid_argsort m (vecl w) idx then eig_take idx (mkeout m (vecl w) (matl V)) (ck c) (cwh c) else None
   | RIdent => eig_ident (cn c) (ck c) (cwh c)
-  | RDiag bm d => eig_diag (if bm then qi_mag_leb else qi_leb) (cn c) (vecl d) (ck c) (cwh c)
-  | RTri bm lw A rb =>
-      (if lw then eig_tri_lower else eig_tri) (if bm then qi_mag_leb else qi_leb) usolve (if rb then (fun x => (fst x, 0%Qc)) else (fun x => x)) (cn c) (matl A) (ck c) (cwh c)
+  | RDiag None d => eig_diag qi_leb (cn c) (vecl d) (ck c) (cwh c)
+  | RDiag (Some idx) d => if valid_argsort (cn c) (vecl d) idx then eig_take idx (diag_out (cn c) (vecl d)) (ck c) (cwh c) else None
+  | RTri None lw A rb => (if lw then eig_tri_lower else eig_tri) qi_leb usolve (cast_of rb) (cn c) (matl A) (ck c) (cwh c)
+  | RTri (Some idx) lw A rb =>
+      if valid_argsort (cn c) (fun i => matl A i i) idx
+      then eig_take idx ((if lw then tri_lower_out else tri_out) usolve (cast_of rb) (cn c) (matl A)) (ck c) (cwh c) else None
   end.
 Definition check_ecase (c : ecase) : bool :=
   match run_rule c with
